@@ -10,7 +10,7 @@ func init() {
 	register("C06", []string{"."}, runC06)
 	register("C07", []string{"."}, runC07)
 	propExplain["C06"] = "Decides the ordering/ownership clause of C06 in the commit pipeline: a batch is published only through the nil-error edges of prepare and apply; a large (flushable) batch receives its sequence number before it is queued where flushes and readers can find it; the applied flag is set before the publisher dequeues; only publish advances the visible sequence number (by CAS) and marks a batch applied; only the pipeline applies batches to memtables. Also (O4) memTable.apply links a batch's range deletions and range keys into their skiplists before it invalidates the memtable's cached fragments, and does invalidate them. Does not decide the lock-free queue's interleavings."
-	propExplain["C07"] = "Decides the sequencing clause of C07: sequence-number allocation, enqueueing and the WAL write happen in that order inside one commitPipeline.mu region (WAL order = seqnum order = queue order); only the pipeline and Open/recovery write logSeqNum; the visible sequence number is ratcheted (CAS only on the false edge of new <= cur) and a committer is released only after the publish loop advanced it; Commit does not return before publish."
+	propExplain["C07"] = "Decides the sequencing clause of C07: sequence-number allocation, enqueueing and the WAL write happen in that order inside one commitPipeline.mu region (WAL order = seqnum order = queue order); only the pipeline and Open/recovery write logSeqNum; the visible sequence number is ratcheted (CAS only on the false edge of new <= cur) and a committer is released only after the publish loop advanced it; Commit does not return before publish; a batch is marked applied only by publish (C06.W1, shared: the ratchet advances over every queued batch carrying the mark). Does not decide the SPMC queue interleavings."
 }
 
 func runC06(c *Ctx) {
@@ -72,6 +72,17 @@ func runC06(c *Ctx) {
 	c.Who("C06.W1", Or(MethodOn("Store", "visibleSeqNum"), MethodOn("Add", "visibleSeqNum"), MethodOn("Swap", "visibleSeqNum")),
 		"visibleSeqNum is stored only at Open", "p.Open")
 	c.Who("C06.W1", MethodOn("CompareAndSwap", "visibleSeqNum"), "visibleSeqNum advanced only by publish", "p.(*commitPipeline).publish")
+	appliedOnlyByPublish(c)
+	// C06.W2
+	c.Who("C06.W2", FuncRef("p.(*memTable).apply"), "memtables are written only by the commit pipeline and WAL replay", "p.(*DB).commitApply", "p.(*DB).replayWAL")
+	c.Who("C06.W2", FuncRef("p.(*commitPipeline).Commit"), "Commit is entered only through applyInternal", "p.(*DB).applyInternal")
+	c.Who("C06.W2", FuncRef("p.(*DB).applyInternal"), "applyInternal only from Apply/ApplyNoSyncWait", "p.(*DB).Apply", "p.(*DB).ApplyNoSyncWait")
+	c.Who("C06.W2", FuncRef("p.(*DB).commitApply", "p.(*DB).commitWrite"), "commitApply/commitWrite are only installed as the pipeline's environment", "p.Open")
+}
+
+// appliedOnlyByPublish (C06.W1, shared with C07): publish ratchets the visible sequence number
+// over every queued batch that is marked applied, so nothing else may set that mark.
+func appliedOnlyByPublish(c *Ctx) {
 	c.Who("C06.W1", Pred("applied.Store(true)", func(in ssa.Instruction) bool {
 		if !AtomicOp(c.Field("C06.W1", "p.Batch.applied"), "Store").F(in) {
 			return false
@@ -83,14 +94,10 @@ func runC06(c *Ctx) {
 		k, ok := cc.Args[len(cc.Args)-1].(*ssa.Const)
 		return ok && k.Value != nil && k.Value.String() == "true"
 	}), "a batch is marked applied only by publish", "p.(*commitPipeline).publish")
-	// C06.W2
-	c.Who("C06.W2", FuncRef("p.(*memTable).apply"), "memtables are written only by the commit pipeline and WAL replay", "p.(*DB).commitApply", "p.(*DB).replayWAL")
-	c.Who("C06.W2", FuncRef("p.(*commitPipeline).Commit"), "Commit is entered only through applyInternal", "p.(*DB).applyInternal")
-	c.Who("C06.W2", FuncRef("p.(*DB).applyInternal"), "applyInternal only from Apply/ApplyNoSyncWait", "p.(*DB).Apply", "p.(*DB).ApplyNoSyncWait")
-	c.Who("C06.W2", FuncRef("p.(*DB).commitApply", "p.(*DB).commitWrite"), "commitApply/commitWrite are only installed as the pipeline's environment", "p.Open")
 }
 
 func runC07(c *Ctx) {
+	appliedOnlyByPublish(c)
 	lockM := MethodOn("Lock", "recv.mu")
 	unlockM := MethodOn("Unlock", "recv.mu")
 	// C07.R1
